@@ -149,6 +149,33 @@ fn after_unsound_value(text: &str) -> bool {
 fn check_repl(seed: u64, shard: u64, index: u64, rep: &mut Report) {
     let (body, names) = gen_statements(seed, shard, index);
     let texts: Vec<String> = body.iter().map(|s| format!("{};", print_stm(s, if index % 2 == 0 { Mode::Literal } else { Mode::Hidden }))).collect();
+    check_repl_texts(&texts, &names, rep);
+}
+
+/// hand-written histories around what the generated ones reach only by luck: one site evaluated several times,
+/// names of earlier inputs re-bound locally, state created by a run, the helper closures' own names
+const FIXED_HISTORIES: &[&[&str]] = &[
+    &["arr := [1, 2, 3];", "t := () -> int { return arr~ $+ };", "a := t();", "b := t();", "(a, b)"],
+    &["arr := [1, 2, 3];", "a := arr~ $];", "b := arr~ $];", "(a, b)"],
+    &["arr := [1, 2, 3];", "s := mut 0;", "for k in [1, 2]~ { for x in arr~ { s += x; } };", "*s"],
+    &["it := [1, 2, 3]~;", "a := it();", "b := it $];", "c := it $];", "(a, b, c)"],
+    &["f := () -> int { it := [mut 1, 2]~ ? mut int; it(); d := it().1; d += 1; return *d };", "a := f();", "b := f();", "(a, b)"],
+    &["c := mut 0;", "g := () -> int { c += 1; return *c };", "a := g();", "b := g();", "(a, b, *c)"],
+    &["n := 3;", "f := (x: int) -> int { return x + n };", "n := 10;", "a := f(1);", "(a, n)"],
+    &["x := 1;", "add := (x: int) -> int { return x + 100 };", "add(5)"],
+    &["x := 1;", "x := 10; z := x + 1;", "(x, z)"],
+    &["i := 100;", "s := mut 0;", "for i in [1, 2, 3]~ { s += i };", "(*s, i)"],
+    &["default := 7;", "iterator := 8;", "xs := [1, \"a\", 2];", "r := xs~ ? int $];", "(default, iterator, r)"],
+    &["res := 1;", "con := 2;", "value := 3;", "ys := [4, 5]~ $];", "acc := 6;", "s := [1, 2]~ $+;", "(res, con, value, ys, acc, s)"],
+    &["mapper := 1;", "predicate := 2;", "func := 3;", "m := [1, 2]~ @ (x: int) -> int { return x * 2 } $];", "q := [1, 2]~ ? (x: int) -> bool { return x > 1 } $];", "(mapper, predicate, func, m, q)"],
+    &["u := [1, \"s\"][0];", "w := if v: int = u { v + 1 } else { 0 };", "w"],
+    &["xs := [];", "ys := xs + [1];", "c := mut [int] xs;", "c += [2];", "(*c, ys)"],
+    &["f := (n: int) -> int { if n <= 0 { return 0 } return n + f(n - 1) };", "g := f;", "f := (n: int) -> int { return 100 };", "(g(3), f(3))"],
+    &["m := mod { a := 1; b := (x: int) -> int { return x + a } };", "a := 50;", "(m.b(1), m.a, a)"],
+    &["t := (1, \"s\");", "(p, q) := t;", "p := q;", "(p, q, t)"],
+];
+
+fn check_repl_texts(texts: &[String], names: &[String], rep: &mut Report) {
     let n = texts.len();
     rep.count("histories");
     rep.distinct_case(&texts.join(" "));
@@ -156,7 +183,7 @@ fn check_repl(seed: u64, shard: u64, index: u64, rep: &mut Report) {
     let mut batch: Vec<Option<(String, String)>> = Vec::new();
     for k in 1..=n {
         let whole = texts[..k].join(" ");
-        let steps = run_groups(&[whole], &names);
+        let steps = run_groups(&[whole], names);
         rep.evaluations += 1;
         batch.push(match steps.last() {
             Some(Step::Done(r, vars)) => Some((r.clone(), vars.clone())),
@@ -189,7 +216,7 @@ fn check_repl(seed: u64, shard: u64, index: u64, rep: &mut Report) {
         if groups.len() == 1 {
             continue; // that is the batch route itself
         }
-        let steps = run_groups(&groups, &names);
+        let steps = run_groups(&groups, names);
         rep.evaluations += 1;
         rep.count("splits");
         for (gi, step) in steps.iter().enumerate() {
@@ -395,6 +422,15 @@ fn has_captured_cells(interp: &Interpreter, names: &[String]) -> bool {
 }
 
 const HOST_FUNCTIONS: &[&str] = &[
+    // union parameters whose alternatives are structured types: an argument matches an alternative without being it
+    "f := (a: [any]|string) -> int { return std.len(a) }",
+    "f := (a: [int]|()) -> int { return if x: [int] = a { std.len(x) } else { 0 - 1 } }",
+    "f := (t: (int|float, int)|()) -> int { return if x: (int|float, int) = t { x.1 } else { 0 } }",
+    "f := (s: struct{a: int|string}|int) -> int { return 1 }",
+    "f := (h: (int)->(int|string)|()) -> int { return 2 }",
+    "f := (a: [[int]]|[string], b: [int|string]) -> int { return std.len(a) + std.len(b) }",
+    "f := () -> int { return 7 }",
+    "f := () -> () { }",
     "g := (g: int) -> int { return g }",
     "f := (a: int, b: string) -> string { return b }",
     "f := (u: int|string) -> int|string { return u }",
@@ -597,6 +633,24 @@ pub fn run(cfg: &Cfg, rep: &mut Report) {
     }
     if cfg.shard == 0 {
         check_inferred_cells(rep);
+    }
+    for (i, h) in FIXED_HISTORIES.iter().enumerate() {
+        if cfg.owns(1000 + i as u64) {
+            let texts: Vec<String> = h.iter().map(|t| t.to_string()).collect();
+            rep.count("fixed-histories");
+            check_repl_texts(&texts, &[], rep);
+            // the same history as one program: executing the parsed program again gives the same result
+            let whole = texts.join(" ");
+            let interp = Interpreter::without_stdlib();
+            if let Ok(Ok(code)) = real::guarded(|| Code::parse(&Interpreter::with_stdlib(), &whole)) {
+                let _ = interp;
+                let runs: Vec<String> = (0..3).map(|_| match real::exec_code(&code, FUEL) { Outcome::Value(v) => canon(&v), other => other.tag() }).collect();
+                rep.evaluations += 3;
+                if runs.iter().any(|r| *r != runs[0]) {
+                    rep.violation("c17:exec:second-run-differs", &format!("three executions of one parsed program gave {runs:?} :: {whole}"), "c17-text", &texts.join("\n"));
+                }
+            }
+        }
     }
     let n = cfg.per_shard(20_000, 800_000);
     for i in 0..n {
